@@ -264,7 +264,8 @@ def make_error_input(code, input_data, context):
 
 def preprocess_tuples(tuples, preprocessor):
   try:
-    tuples = np.column_stack([preprocessor(tuples[:, i])[:, np.newaxis] for
+    tuples = np.column_stack([np.asarray(preprocessor(tuples[:, i]))
+                              [:, np.newaxis] for
                               i in range(tuples.shape[1])])
   except Exception as e:
     raise PreprocessorError(e)
